@@ -21,16 +21,17 @@ def keyfn_free(variant, f):
     return "%s.%s %s%s" % (variant, f.op, f.kind, ("/" + d) if d else "")
 
 
-def record_validate(ctx, exe, cls, hargs, hist, init, module, cfg, corrupt=None):
+def record_validate(ctx, exe, cls, hargs, hist, init, module, cfg, corrupt=None, tag=None, sid0=1):
     """hist: list of histories (lists of 'op arg..' lines).  Reports violations through ctx.
     Returns (events_validated, max_size_of_a, accepted).  corrupt(events) may damage the events (binding demonstration)."""
-    texts = [script_text(k + 1, h) for k, h in enumerate(hist)]
-    fails, recs, ns, nt = run_scripts(exe, hargs, texts, ctx.rundir, jobs=4, tag="rec-" + cls)
+    # script ids matter: harnesses started with text family -1 choose the family from the id
+    texts = [script_text(k + sid0, h) for k, h in enumerate(hist)]
+    fails, recs, ns, nt = run_scripts(exe, hargs, texts, ctx.rundir, jobs=4, tag="rec-" + (tag or cls))
     bad_sids = set()
     for f in fails:
         bad_sids.add(f.sid)
         ctx.report("trace %s" % keyfn_free(cls, f), "%s: recorded run failed before validation: %r" % (cls, f),
-                   {"variant": cls, "harness_args": hargs, "script_text": texts[f.sid - 1], "failure": repr(f), "detail": f.detail})
+                   {"variant": cls, "harness_args": hargs, "script_text": texts[f.sid - sid0], "failure": repr(f), "detail": f.detail})
     by = {}
     for sid, step, ret, state in recs:
         by.setdefault(sid, []).append((step, ret, state))
@@ -43,7 +44,7 @@ def record_validate(ctx, exe, cls, hargs, hist, init, module, cfg, corrupt=None)
         index.append((sid, -1))
         prev = None
         for step, ret, state in sorted(by[sid]):
-            w = hist[sid - 1][step].split()
+            w = hist[sid - sid0][step].split()
             ev = {"op": w[0], "args": [parse_arg(x) for x in w[1:]], "ret": untok(ret)}
             if state != prev:
                 ev["post"] = untok(state)
@@ -55,15 +56,15 @@ def record_validate(ctx, exe, cls, hargs, hist, init, module, cfg, corrupt=None)
         return 0, 0, not fails
     if corrupt:
         corrupt(events)
-    ok, pos, path = trace.validate(ctx, module, cfg, events, tag=cls)
+    ok, pos, path = trace.validate(ctx, module, cfg, events, tag=(tag or cls))
     if not ok:
         sid, step = index[pos] if pos < len(index) else (None, None)
         evb = events[pos] if pos < len(events) else None
         ctx.report("trace-rejected %s.%s" % (cls, evb["op"] if evb else "?"),
                    "%s: TLC rejects the recorded execution at event %d = step %s of history %s (%s)" % (
                        cls, pos, step, sid, json.dumps(evb)[:300]),
-                   {"variant": cls, "harness_args": hargs, "script_text": texts[sid - 1] if sid else "",
-                    "history": hist[sid - 1] if sid else [], "trace_module": module, "trace_cfg": cfg, "init": init,
+                   {"variant": cls, "harness_args": hargs, "script_text": texts[sid - sid0] if sid else "", "sid": sid,
+                    "history": hist[sid - sid0] if sid else [], "trace_module": module, "trace_cfg": cfg, "init": init,
                     "event": evb, "event_index": pos, "step": step})
     else:
         ctx.sample({"variant": cls, "trace_events": len(events), "max_size_seen": maxsize,
@@ -75,7 +76,8 @@ def replay_trace(ctx, exe, rp):
     """--replay of a 'trace-rejected' file: record the history again and let TLC judge it again."""
     hist = [rp["history"]]
     n0 = len(ctx.violations)
-    pos, _, ok = record_validate(ctx, exe, rp["variant"], rp["harness_args"], hist, rp["init"], rp["trace_module"], rp["trace_cfg"])
+    pos, _, ok = record_validate(ctx, exe, rp["variant"], rp["harness_args"], hist, rp["init"], rp["trace_module"], rp["trace_cfg"],
+                                 sid0=rp.get("sid") or 1)
     if ok:
         print("not reproduced: TLC accepts the re-recorded execution (%d events)" % pos)
         return 0
